@@ -597,6 +597,11 @@ class Engine:
                 return a // b if op == "Div" else a % b
             A = a if is_sym(a) else z3.IntVal(a)
             return A / b if op == "Div" else A % b
+        if op in ("Shl", "Shr", "ShlUnchecked", "ShrUnchecked") and ty in INT_RANGES and not is_sym(b):
+            # shifts by a concrete amount: multiplication / floor division by a power of two (Shl wraps to the type's width)
+            if op.startswith("Shl"):
+                return self.wrap(a * (2 ** int(b)), ty)
+            return (a / (2 ** int(b))) if is_sym(a) else (a // (2 ** int(b)))
         if op in ("BitAnd", "BitOr", "BitXor") and (isinstance(a, bool) or (is_sym(a) and z3.is_bool(a))):
             A = a if is_sym(a) else z3.BoolVal(a)
             B = b if is_sym(b) else z3.BoolVal(b)
@@ -607,7 +612,7 @@ class Engine:
         s = s.strip()
         m = re.match(r"^(\w+)\((.*)\)$", s)
         if m and m.group(1) in ("Lt", "Le", "Gt", "Ge", "Eq", "Ne", "Add", "Sub", "Mul", "Div", "Rem",
-                                "AddWithOverflow", "SubWithOverflow", "MulWithOverflow", "BitAnd", "BitOr", "BitXor"):
+                                "AddWithOverflow", "SubWithOverflow", "MulWithOverflow", "BitAnd", "BitOr", "BitXor", "Shl", "Shr", "ShlUnchecked", "ShrUnchecked"):
             a, b = [self.operand(frame, x) for x in split_top(m.group(2))]
             ty = dst_ty
             if m.group(1).endswith("WithOverflow"):
@@ -752,7 +757,12 @@ class Engine:
                 self.stats["steps"] += 1
                 if self.steps > self.max_steps:
                     raise Unsupported("step bound exceeded")
-                nxt = self.exec_stmt(fn, frame, stmt)
+                try:
+                    nxt = self.exec_stmt(fn, frame, stmt)
+                except (TypeError, KeyError, IndexError, AttributeError, ValueError) as ex:
+                    # a value of a shape the engine's operators do not handle (an abstract payload in arithmetic, a projection
+                    # into an opaque value): this path cannot be followed - undecided, never a crash and never a pass
+                    raise Unsupported("engine cannot execute `%s` in %s: %s: %s" % (stmt[:80], fn.name[:60], type(ex).__name__, str(ex)[:80]))
                 if nxt is not None:
                     if nxt == "return":
                         return frame.get(0)
